@@ -311,7 +311,7 @@ func (ss *SpecSet) loadSpecFile(path string, prefixed bool, pkgDir string) error
 			ss.Contracts[key] = cur
 			curLemma = nil
 		case curLemma != nil && strings.HasPrefix(d, "use "):
-			curLemma.Uses = append(curLemma.Uses, strings.Fields(strings.TrimPrefix(strings.TrimPrefix(d, "use "), "lemma "))...)
+			curLemma.Uses = append(curLemma.Uses, strings.FieldsFunc(strings.TrimPrefix(strings.TrimPrefix(d, "use "), "lemma "), func(r rune) bool { return r == ',' || r == ' ' || r == '\t' })...)
 		case curLemma != nil && strings.HasPrefix(d, "hint "):
 			e, err := mustExpr(i, d[5:])
 			if err != nil {
@@ -365,7 +365,7 @@ func (ss *SpecSet) loadSpecFile(path string, prefixed bool, pkgDir string) error
 				r := strings.Trim(strings.TrimSpace(d[5:]), "()")
 				cur.ResultN = names(parseParams(r))
 			case strings.HasPrefix(d, "use "):
-				cur.Uses = append(cur.Uses, strings.Fields(strings.TrimPrefix(strings.TrimPrefix(d, "use "), "lemma "))...)
+				cur.Uses = append(cur.Uses, strings.FieldsFunc(strings.TrimPrefix(strings.TrimPrefix(d, "use "), "lemma "), func(r rune) bool { return r == ',' || r == ' ' || r == '\t' })...)
 			case strings.HasPrefix(d, "expect_obligations"):
 				f := strings.Fields(d)
 				n, err := strconv.Atoi(f[len(f)-1])
